@@ -38,7 +38,8 @@ def finding_matches(k, prop, unit, fail):
             return False
     if 'source_text' in ob:
         txt = ' '.join(w.get('text') or '' for w in fail.get('where', []))
-        if ob['source_text'] not in txt:
+        wanted = ob['source_text'] if isinstance(ob['source_text'], list) else [ob['source_text']]   # a list: any of the listed statements
+        if not any(w in txt for w in wanted):
             return False
     return True
 
